@@ -124,6 +124,11 @@ theorem wheel_wait_insert_le (u : Option Nat) (s : Bool) (w : Verif.Wheel.Wheel)
     cases u <;> cases s <;>
       simp [waitFromWheel, hn, hd', waitFor, effTimeout, withSynthetic, nextTimeout, untilDeadline] at h ⊢ <;> omega
 
+/-- a timer that re-arms itself from its callback (`ToInstant d`) is waited for: the next wait ends by `d` -/
+theorem wheel_wait_rearm_le (u : Option Nat) (s : Bool) (w : Verif.Wheel.Wheel) (now : Nat) (c : Nat) (d : Int) (tk : Verif.Token.Tok) :
+    ∃ wt, waitFromWheel u s (Verif.Wheel.insertReuse w c d tk) now = some wt ∧ now + wt ≤ max d.toNat now :=
+  wheel_wait_le_every_armed_deadline u s _ now ⟨d, tk, c⟩ (by simp [Verif.Wheel.insertReuse])
+
 /-- cancelling an arming (remove, disable, re-arm, Drop) never shortens the wait -/
 theorem wheel_wait_cancel_ge (u : Option Nat) (s : Bool) (w : Verif.Wheel.Wheel) (now : Nat) (c : Nat)
     (wt' : Nat) (h : waitFromWheel u s (Verif.Wheel.cancel w c) now = some wt') :
